@@ -81,6 +81,42 @@ def renderLine (l : List Item) : Bytes := if removable l then cutLine l else kee
 
 def specRender (raws : List Raw) : Bytes := (lines (items raws)).flatMap renderLine
 
+/-! ### the rule as the engine applies it around comments
+
+The engine follows the rule above except in two places, both about comments (the lexer emits a
+comment token after having counted its newlines, and the parser looks at the line under
+construction as soon as a token ends the file):
+
+* a comment that spans lines is counted on the line where it *ends*: what stands before it on
+  the line where it starts is a line of its own, closed at the comment;
+* so is what stands before a comment that ends the file.
+
+A line closed like this is removed under the same conditions as any other — exactly one token,
+cuttable, text all blank — and only if nothing at all follows that token on it. `engineRender`
+is the rule with these two breaks; on sources without them (`inClass`) it is `specRender`. -/
+
+/-- the line is closed before this comment (`last`: nothing follows it in the file) -/
+def breaksBefore (t : NT) (last : Bool) : Bool := t.comment && (t.nl != 0 || last)
+
+/-- lines, each with the flag "closed by a comment" -/
+def splitLinesE : List Item → List Item → List (Bool × List Item)
+  | [], cur => [(false, cur)]
+  | .byte b :: is, cur =>
+    if b == LF then (false, cur ++ [.byte b]) :: splitLinesE is [] else splitLinesE is (cur ++ [.byte b])
+  | .tok t :: is, cur =>
+    if breaksBefore t is.isEmpty then (true, cur) :: splitLinesE is [.tok t]
+    else splitLinesE is (cur ++ [.tok t])
+
+/-- a line closed by a comment goes when its token is the last thing on it -/
+def removableC (l : List Item) : Bool :=
+  oneCuttable (lineToks l) && lineBlank l && endsWithTok l
+
+def renderLineE : Bool × List Item → Bytes
+  | (false, l) => renderLine l
+  | (true, l) => if removableC l then cutLine l else keepLine l
+
+def engineRender (raws : List Raw) : Bytes := (splitLinesE (items raws) []).flatMap renderLineE
+
 /-- (iv) -/
 def dropShebang (src : Bytes) : Bytes :=
   match src with
@@ -92,10 +128,9 @@ def specSource (f : Format) (src : Bytes) : Except TokErr Bytes :=
   (tokenize f (dropShebang src)).map specRender
 
 /-- the class on which the engine follows the rule to the letter (`Props/C15.lean`): no comment
-spans lines and the file does not end with a comment. Outside it the engine counts a comment on
-the line where it *ends* and looks at the line before a final comment early; what it removes
-there is still only blank text of content-free statement lines (checked on the real output by
-the "allowed" oracle of go/props/c15, not proved). -/
+spans lines and the file does not end with a comment. Outside it the engine makes the two
+extra line breaks of `engineRender` above; what it removes there is still only blank text of
+lines holding one cuttable token (`removed_subset_documented`). -/
 def inClass : List Raw → Bool
   | [] => true
   | [.text _] => true
